@@ -7,4 +7,14 @@ TEXTS = {
         "note": "Trusted: Lean kernel + {propext, Quot.sound}; driver compilation; harness generators. regex matching is an oracle column computed by the real regex crate; the gherkin tag-expression text parser is exercised (1/3 of expressions) but not modelled.",
         "technique": "Lean 4 proof (induction on TagOp, List.filter/Sublist lemmas) + pure-function differential vs real filter_run",
     },
+    "C17": {
+        "level": "Lean 4 theorems over the executable model of step::Collection (per-keyword map with HashMap::insert semantics, find over an arbitrary iteration order): keyword scoping, 0 matches => None, exactly 1 => that definition with whole match + all groups named in order and \"\" for non-participating groups, >= 2 => ambiguity listing exactly the matching keys sorted; the result is invariant under any permutation of the iteration order and, for pairwise distinct keys, of the registration order. No bound on the number of definitions or groups. Tied to the code by calling the real Collection::{given,when,then,find} on random collections (shared regexes, duplicate keys, nested/optional/named/multi-byte groups) registered in random order and invoking the returned fn pointer.",
+        "note": "Trusted: Lean kernel + {propext, Quot.sound, Classical.choice}; driver; harness. Regex matching itself is an oracle (real regex crate output per definition); key order is the crate's Ord, applied by the harness when numbering keys.",
+        "technique": "Lean 4 proof (List.Perm, mergeSort uniqueness) + pure-function differential vs real Collection::find",
+    },
+    "C18": {
+        "level": "Lean 4 theorems over the executable, character-level model of RetryOptions::parse_from_tags and of the CLI/builder merge in Basic::run: the four documented tag shapes yield (N?, D?) for every numeral < 2^64 and every payload without ')', nearest tag wins (scenario, else rule, else feature; first retry-prefixed tag in a list), omitted parts fall back CLI -> builder -> (1, none), untagged scenarios are retried iff the tag filter (CLI over builder) holds on the inherited tags or, without filter, a count/delay is configured; concurrency = cli.or(builder), fail_fast = cli || builder; malformed payloads degrade as the code does. Tied to the code by running the real Basic runner (merge) with a retry_options hook that calls the real parse_from_tags and records its result, on generated tag placements x CLI x builder settings incl. malformed tags.",
+        "note": "Trusted: Lean kernel + {propext, Quot.sound}; driver; harness. humantime::parse_duration is an oracle table; usize parsing is modelled (optional '+', ASCII digits, < 2^64). Concurrency/fail-fast resolution are theorems here; their behavioural tie to the code is exercised by the scheduler families of C06/C08.",
+        "technique": "Lean 4 proof (structural lemmas on strip_prefix/split_once/parse) + pure-function differential vs real Basic::run + parse_from_tags",
+    },
 }
